@@ -21,18 +21,22 @@ from . import common as C
 LEVEL = "other"
 
 
-def e2e(args, timeout, env=None):
-    """C.run_e2e without its automatic 4x-watchdog retry: this check does its own reproduction of timeouts (an intermittent
-    deadlock must not be retried away)."""
+def e2e(args, timeout, env=None, retry=False):
+    """C.run_e2e; retry=False switches off its automatic repetition of a timed-out run (alone, 4x watchdog): the runs that study
+    the intermittent deadlock of the blocking final drain do their own reproduction."""
     try:
-        return C.run_e2e(args, timeout=timeout, env=env, retry_hung=False)
+        return C.run_e2e(args, timeout=timeout, env=env, retry_hung=retry)
     except TypeError:
         return C.run_e2e(args, timeout=timeout, env=env)
+
+
 MODULE = "SvtVerif.Props.C27"
 PAR = 4
 WATCHDOG = 150          # drain-after-each-send runs: >= 20x typical (typical 3-8 s)
 WATCHDOG_END = 60       # "drain only at the end" may legitimately block once the pools are exhausted: shorter watchdog
 KEY_DEADLOCK = "C27-blocking-get-packet-recon-pool-deadlock"
+KEY_TPL = "C27-tpl-nondeterministic-lp2plus"
+TPL = "cfg.enable_tpl_la"
 
 EXPLANATION = (
     "LEVEL other: machine-checked are (a) the non-blocking getter on the C23 model of the system resource manager, for all "
@@ -138,6 +142,8 @@ def patterns(chk):
 
 
 def streams(chk):
+    """-> [(family, stream)].  main: enable_tpl_la = 0 (any output difference is a VIOLATION).  tpl: TPL look-ahead on (library
+    default), run under CPU contention; a difference there is classified by a differential test (known TPL race, see C04)."""
     E, LP = "cfg.enc_mode", "cfg.logical_processors"
     base = [dict(w=64, h=64, bd=8, content=4, **{E: 8, LP: 4}),
             dict(w=128, h=64, bd=8, content=2, **{E: 8, LP: 1}),
@@ -155,45 +161,117 @@ def streams(chk):
         out.append(dict(w=64, h=256, bd=8, content=4, n=40, **{E: 8, LP: 4}))
         out.append(dict(w=256, h=192, bd=8, content=0, n=25, **{E: 6, LP: 16, "cfg.tile_columns": 1}))
         out.append(dict(w=128, h=128, bd=8, content=4, n=60, **{E: 8, LP: 4, "cfg.look_ahead_distance": 0, "cfg.hierarchical_levels": 0}))
-    return out
+    res = []
+    for a in out:
+        a[TPL] = 0
+        res.append(("main", a))
+    tpl = [dict(base[2], n=9), dict(base[0], n=33)]
+    if chk.tier == "thorough":
+        tpl.append(dict(w=64, h=64, bd=8, content=4, n=5, **{E: 8, LP: 3, "cfg.hierarchical_levels": 2}))
+    for a in tpl:
+        a[TPL] = 1
+        res.append(("tpl", a))
+    return res
+
+
+TPL_PATTERNS = ("each", "every2", "random", "end-only")     # the tpl family uses a few patterns only
+
+
+def run_opts(a, recon, wd, retry):
+    a = dict(a)
+    a["seed"] = a.get("seed", 1)
+    a["recon"] = recon
+    a["decode"] = 0
+    a["watchdog"] = wd
+    return a
 
 
 def one_run(job):
-    sname, stream, pname, popt, recon = job
+    sname, fam, stream, pname, popt, recon = job
     a = dict(stream)
     a.update(popt)           # `callseed` seeds the random call pattern; the content seed stays fixed for the whole stream
-    a["seed"] = 1
-    a["recon"] = recon
-    a["decode"] = 0
     wd = WATCHDOG_END if popt.get("drain") == 1 else WATCHDOG
-    a["watchdog"] = wd
+    a = run_opts(a, recon, wd, False)
+    draining = popt.get("drain") == 0
+    blockfinal = a.get("final_nb") == 0
+    old_aff = None
+    if fam == "tpl":
+        try:                 # CPU contention (two cores for this worker thread and the encoders it starts) makes the TPL race visible
+            old_aff = os.sched_getaffinity(0)
+            os.sched_setaffinity(0, set(sorted(old_aff)[:2]))
+        except (AttributeError, OSError):
+            old_aff = None
     t0 = time.time()
-    r = e2e(a, wd + 30)
-    if r["hung"] and popt.get("drain") == 0:
-        # R6: a watchdog hit counts only if it reproduces; a deadlock that needs a particular schedule gets two more chances
-        hangs = 1
-        last_ok = None
-        for _ in range(2):
-            r2 = e2e(a, wd + 30)
-            if r2["hung"]:
-                hangs += 1
-                break
-            last_ok = r2
-        r["hang_count"] = hangs
-        if hangs >= 2 and a.get("final_nb") == 0 and recon:
-            b = dict(a)
-            b["final_nb"] = 1
-            r["nb_variant_completes"] = complete(e2e(b, wd + 30), stream["n"], recon)
-        if hangs < 2 and last_ok is not None:
-            last_ok["unreproduced_timeout"] = True
-            r = last_ok
+    try:
+        # a run that must complete and uses the non-blocking final drain: run_e2e's own retry (alone, 4x watchdog) decides
+        # whether a timeout is real; patterns that may legitimately block and the blocking-final-drain runs are not retried by it
+        r = e2e(a, wd + 30, retry=(draining and not blockfinal))
+        if r["hung"] and draining and blockfinal:
+            # a deadlock that needs a particular schedule gets two more chances to show again
+            hangs = 1
+            last_ok = None
+            for _ in range(2):
+                r2 = e2e(a, wd + 30)
+                if r2["hung"]:
+                    hangs += 1
+                    break
+                last_ok = r2
+            r["hang_count"] = hangs
+            if hangs >= 2:
+                b = dict(a)
+                b["final_nb"] = 1
+                r["nb_variant_completes"] = complete(e2e(b, wd + 30, retry=True), stream["n"], recon)
+            elif last_ok is not None:
+                last_ok["unreproduced_timeout"] = True
+                r = last_ok
+        elif r["hung"] and draining:
+            r["hang_count"] = 2          # timed out, and again alone with 4x the watchdog
+    finally:
+        if old_aff is not None:
+            try:
+                os.sched_setaffinity(0, old_aff)
+            except OSError:
+                pass
     r["wall"] = time.time() - t0
-    return (sname, stream, pname, popt, recon, a, r)
+    return (sname, fam, stream, pname, popt, recon, a, r)
 
 
-def output_key(st):
-    """stable key of an output difference: the stream it was seen on (a listed finding covers that one stream only)"""
-    return "C27-output-differs-%dx%d-n%d-m%s-lp%s" % (st["w"], st["h"], st["n"], st.get("cfg.enc_mode", 8), st.get("cfg.logical_processors", 4))
+def pk_of(r):
+    return tuple((p["pts"], p["flags"], p["size"], p["crc"]) for p in r["PKT"])
+
+
+def differential(stream, recon, xa, xb, reps=3):
+    """Differential test for an output difference met in the tpl family between the runs xa = (args, result) and xb.
+    -> (has the signature of the known TPL race, text)"""
+    (aa, ra), (ab, rb) = xa, xb
+    pa, pb = pk_of(ra), pk_of(rb)
+    i = next((i for i, (p, q) in enumerate(zip(pa, pb)) if p != q), None)
+    pts = pa[i][0] if i is not None and pa[i][0] == pb[i][0] else None
+    lines = []
+    n = stream["n"]
+    for label, a, r0 in (("A", aa, ra), ("B", ab, rb)):
+        sigs = [pk_of(r0)]
+        for _ in range(reps):
+            r = e2e(a, a["watchdog"] + 30, retry=True)
+            if complete(r, n, a["recon"]):
+                sigs.append(pk_of(r))
+            if len(set(sigs)) > 1:
+                break
+        lines.append("call pattern %s re-run %d times: %d distinct packet sequences" % (label, len(sigs) - 1, len(set(sigs))))
+        if len(set(sigs)) > 1:
+            return True, "\n".join(lines) + "\n=> nondeterministic at a FIXED call pattern: not an effect of the pattern"
+    a2, b2 = dict(aa), dict(ab)
+    a2[TPL] = 0
+    b2[TPL] = 0
+    same = True
+    for _ in range(2):
+        x, y = e2e(a2, a2["watchdog"] + 30, retry=True), e2e(b2, b2["watchdog"] + 30, retry=True)
+        if not (complete(x, n, a2["recon"]) and complete(y, n, b2["recon"]) and pk_of(x) == pk_of(y)):
+            same = False
+    lines.append("with %s=0 the two call patterns %s" % (TPL, "agree" if same else "still differ"))
+    if same and pts == 1:
+        return True, "\n".join(lines) + "\n=> the difference needs the TPL look-ahead; first differing picture is pts 1"
+    return False, "\n".join(lines) + "\n=> NOT the signature of the listed finding (first differing packet pts %s)" % pts
 
 
 def complete(r, n, recon):
@@ -228,14 +306,21 @@ def run(chk, only=None):
     jobs = []
     strs = only if only is not None else streams(chk)
     pats = patterns(chk)
-    for si, st in enumerate(strs):
-        sname = "s%d_%dx%d_n%d_lp%s" % (si, st["w"], st["h"], st["n"], st.get("cfg.logical_processors", 4))
+    strs = [x if isinstance(x, tuple) else ("main", x) for x in strs]
+    strs = [x for x in strs if x[0] == "tpl"] + [x for x in strs if x[0] != "tpl"]       # tpl runs overlap (contention)
+    for si, (fam, st) in enumerate(strs):
+        sname = "s%d_%s_%dx%d_n%d_lp%s" % (si, fam, st["w"], st["h"], st["n"], st.get("cfg.logical_processors", 4))
         for pi, (pname, popt) in enumerate(pats):
-            recons = [1, 0] if (pname in ("each", "random", "every5-blockfinal") and (si % 2 == 0 or chk.tier == "thorough")) else [1]
-            if chk.tier == "quick" and pname in ("each-delay", "every2", "random-delay") and (si + pi) % 2:
-                continue
+            if fam == "tpl":
+                if pname not in TPL_PATTERNS:
+                    continue
+                recons = [1]
+            else:
+                recons = [1, 0] if (pname in ("each", "random", "every5-blockfinal") and (si % 2 == 0 or chk.tier == "thorough")) else [1]
+                if chk.tier == "quick" and pname in ("each-delay", "every2", "random-delay") and (si + pi) % 2:
+                    continue
             for rc in recons:
-                jobs.append((sname, st, pname, popt, rc))
+                jobs.append((sname, fam, st, pname, popt, rc))
     results = C.run_parallel(one_run, jobs, workers=PAR)
     by_stream = {}
     for x in results:
@@ -248,7 +333,7 @@ def run(chk, only=None):
     walls = []
     for sname, xs in by_stream.items():
         ref = None
-        for (_, st, pname, popt, recon, a, r) in xs:
+        for (_, fam, st, pname, popt, recon, a, r) in xs:
             walls.append(r["wall"])
             hist_pat[pname] = hist_pat.get(pname, 0) + 1
             hist_len[str(st["n"])] = hist_len.get(str(st["n"]), 0) + 1
@@ -261,13 +346,13 @@ def run(chk, only=None):
             if not ok:
                 if popt.get("drain") == 0:
                     if r.get("hang_count", 0) >= 2:
-                        key = KEY_DEADLOCK if r.get("nb_variant_completes") else None
+                        key = KEY_DEADLOCK if (r.get("nb_variant_completes") and a.get("final_nb") == 0) else None
                         why = ("the application sits in the blocking svt_av1_enc_get_packet(pic_send_done=1) of its final drain while a "
                                "restoration kernel thread waits in recon_output -> svt_get_empty_object for a free recon buffer: nobody can empty "
                                "the recon queue, no packet can be produced.  The same stream and call pattern with a non-blocking final drain "
                                "(final_nb=1) completes.\n" if key else "")
                         bad.append(("progress", "a drain-after-every-send run did not complete: watchdog timeout (%d s), reproduced on a "
-                                    "second run\n%s%s" % (WATCHDOG, why, argline(a)), a, key))
+                                    "further run\n%s%s" % (WATCHDOG, why, argline(a)), a, key))
                     elif r["hung"]:
                         unrepro.append(argline(a))
                     else:
@@ -281,20 +366,21 @@ def run(chk, only=None):
                 continue
             ncomplete += 1
             compared.add((sname, pname, recon))
-            pk = tuple((p["pts"], p["flags"], p["size"], p["crc"]) for p in r["PKT"])
+            pk = pk_of(r)
             rec = tuple(sorted((x["pts"], x["crc"]) for x in r["RECON"])) if recon else None
             if ref is None:
-                ref = (pk, rec, a, pname)
+                ref = (pk, rec, a, pname, r)
                 continue
             if ref[1] is None and rec is not None:
-                ref = (ref[0], rec, ref[2], ref[3])
+                ref = (ref[0], rec, ref[2], ref[3], ref[4])
             if pk != ref[0]:
                 i = next((i for i, (p, q) in enumerate(zip(pk, ref[0])) if p != q), min(len(pk), len(ref[0])))
                 bad.append(("output", "two completing call patterns delivered different packets (first difference at packet %d)\n"
-                            "pattern %s: %s\npattern %s: %s" % (i, ref[3], argline(ref[2]), pname, argline(a)), a, output_key(st)))
+                            "pattern %s: %s\npattern %s: %s" % (i, ref[3], argline(ref[2]), pname, argline(a)), a,
+                            ("tpl", st, recon, (ref[2], ref[4]), (a, r)) if fam == "tpl" else None))
             elif rec is not None and ref[1] is not None and rec != ref[1]:
                 bad.append(("output", "two completing call patterns delivered different reconstructed pictures (packets identical)\n"
-                            "pattern %s: %s\npattern %s: %s" % (ref[3], argline(ref[2]), pname, argline(a)), a, output_key(st)))
+                            "pattern %s: %s\npattern %s: %s" % (ref[3], argline(ref[2]), pname, argline(a)), a, None))
     chk.cov["evaluations"] = len(results)
     chk.cov["completed_runs"] = ncomplete
     chk.cov["blocked_runs_of_non_draining_patterns"] = nblocked
@@ -308,18 +394,29 @@ def run(chk, only=None):
     chk.cov["explanation"] = EXPLANATION
     chk.cov["not_done"] = "SRM event traces of the real runs are not replayed through the C23 model (no trace hook in the tree)"
     for x in results[:3]:
-        chk.sample({"run": argline(x[5]), "packets": len(x[6]["PKT"]), "recons": len(x[6]["RECON"]), "complete": complete(x[6], x[1]["n"], x[4])})
+        chk.sample({"run": argline(x[6]), "family": x[1], "packets": len(x[7]["PKT"]), "recons": len(x[7]["RECON"]),
+                    "complete": complete(x[7], x[2]["n"], x[5])})
     chk.assumptions += ["H-kahn (not proved): no library code branches on emptiness of an application-facing queue or on time",
                         "rate_control_mode = 0 and speed_control_flag = 0 in every swept configuration (rate control is schedule-dependent: C04 finding)",
+                        "main sweep with enable_tpl_la = 0 (the TPL look-ahead path is nondeterministic at fixed settings with >= 2 threads: C04 finding); "
+                        "TPL-on streams are swept as a labelled family and classified by a differential test",
                         "teardown only after a full drain (F6 excluded)"]
     chk.cov["unreproduced_timeouts"] = unrepro
     seen_keys = set()
+    notes = []
     for kind, text, a, key in bad[:8]:
+        if isinstance(key, tuple):                  # output difference in the tpl family: differential test
+            _, st, recon, xa, xb = key
+            known, dtxt = differential(st, recon, xa, xb)
+            text += "\ndifferential test:\n" + dtxt
+            notes.append(dtxt.replace("\n", "; "))
+            key = KEY_TPL if known else None
         if key is not None and key in seen_keys:
             continue
         seen_keys.add(key)
         chk.violation("C27 violated on the real encoder (%s)\n%s\nreplay: bin/check C27 --replay <this file>\nstream: %s\n" %
                       (kind, text, " ".join("%s=%s" % kv for kv in a.items() if k_is_stream(kv[0]))), key=key)
+    chk.cov["tpl_family_differences"] = notes
     if chk.violations:
         return
     if not_allowed or len(nb_sites) != 2:
@@ -350,5 +447,5 @@ def replay(chk, path):
             for tok in m.group(1).split():
                 k, v = tok.split("=", 1)
                 a[k] = int(v) if re.match(r"-?\d+$", v) else v
-            strs.append(a)
+            strs.append(("tpl" if a.get(TPL, 1) != 0 else "main", a))
     run(chk, strs or None)
